@@ -1,10 +1,9 @@
-(* C08 - "if the motion fails or spans nothing, the operator changes nothing".
-   Since fix f3ffc71 this holds for d, c, y and the case operators on every
-   text object whose failure is an empty EXCLUSIVE object (proved below, per
-   family, from the text-object functions of the model).  It is still false -
-   witnesses below, replayed on the real code by the harness - for the
-   inclusive defaults (e E ge gE g_), for j / k at the buffer boundary
-   (linewise) and for the line operators > < gq on any failed motion. *)
+(* C08 - "if the motion fails or spans nothing, the operator changes nothing"
+   at the level of the operator BODIES: d, c, y and the case operators do
+   nothing on the empty exclusive object that a failing text-object function
+   returns (per family, from the text-object functions of the model).  The
+   full statement for all operators and text objects is at the wrapper
+   (Proofs/C08_SessionFacts.v: wrapper_cancels). *)
 From Coq Require Import ZArith List Bool Lia.
 From PTK Require Import Lib.Sx Lib.Py Model.Document Model.BufferEdit Model.C02_DocQueries
   Model.C08_ViOps Model.C08_TextObjects Proofs.C08_ViFacts.
@@ -145,46 +144,3 @@ Proof.
   rewrite <- Ho. cbn [ttype tstart tend]. split; [reflexivity|lia].
 Qed.
 
-(* ---------------------------------------------------------------------- *)
-(* Still false *)
-
-Ltac refute text cur n hc o :=
-  let H := fresh "H" in
-  intro H;
-  specialize (H text cur n hc (@nil Z) o
-                ltac:(vm_compute; split; intro; discriminate)
-                ltac:(vm_compute; intro; discriminate)
-                ltac:(vm_compute; reflexivity));
-  vm_compute in H;
-  destruct H as (H1 & H2 & H3 & H4);
-  first [discriminate H1 | discriminate H2 | discriminate H3 | discriminate H4].
-
-Definition abc_def : str := [97; 98; 99; 32; 100; 101; 102].      (* "abc def" *)
-Definition a_nl_nl_b : str := [97; 10; 10; 98].                    (* "a\n\nb" *)
-Definition del : opk := OpDelete true false.
-
-(* e / E / ge / gE with no such word end: the inclusive default removes one character *)
-Lemma word_end_failed_refuted : ~ failed_noop (T_e false) del.
-Proof. refute [97; 98] 1 1 false (mkto 0 0 INCL). Qed.
-Lemma word_end_backward_failed_refuted : ~ failed_noop (T_ge false) del.
-Proof. refute [97; 98] 0 1 false (mkto 0 0 INCL). Qed.
-(* g_ on a blank line: the line ending under the cursor is removed *)
-Lemma last_non_blank_on_blank_line_refuted : ~ failed_noop T_g_ del.
-Proof. refute a_nl_nl_b 2 1 false (mkto 0 0 INCL). Qed.
-(* j on the last line / k on the first line: the current line is deleted *)
-Lemma down_on_last_line_refuted : ~ failed_noop T_j del.
-Proof. refute [97; 98] 0 1 false (mkto 0 0 LINEW). Qed.
-Lemma up_on_first_line_refuted : ~ failed_noop T_k del.
-Proof. refute [97; 98] 0 1 false (mkto 0 0 LINEW). Qed.
-(* the line operators act on the cursor line whatever the motion did *)
-Lemma failed_find_indent_refuted : ~ failed_noop (T_F 120) OpIndent.
-Proof. refute abc_def 0 1 false (mk1 0). Qed.
-Lemma failed_find_unindent_refuted : ~ failed_noop (T_F 120) OpUnindent.
-Proof. refute [32; 97] 1 1 false (mk1 0). Qed.
-Lemma failed_find_reshape_refuted : ~ failed_noop (T_F 120) OpReshape.  (* a newline is appended *)
-Proof. refute abc_def 6 1 false (mk1 0). Qed.
-(* the case operators on the inclusive / linewise defaults *)
-Lemma failed_word_end_transform_refuted : ~ failed_noop (T_e false) (OpTransform 3).
-Proof. refute [97; 98] 1 1 false (mkto 0 0 INCL). Qed.
-Lemma failed_down_transform_refuted : ~ failed_noop T_j (OpTransform 3).
-Proof. refute [97; 98] 0 1 false (mkto 0 0 LINEW). Qed.
